@@ -23,6 +23,7 @@ func init() {
 		Run: runC10,
 		Controls: []Control{
 			{Name: "withdrawal-skipped-when-something-was-queued", File: "protocols/bgp/server/update_sender.go", Old: "\tu.toSendMu.Lock()\n\tu._dequeue(pfx, p)\n\tu.sendMu.Lock()\n\tu.toSendMu.Unlock()\n", New: "\tu.toSendMu.Lock()\n\tu._dequeue(pfx, p)\n\tif len(u.toSend) > 0 {\n\t\tu.toSendMu.Unlock()\n\t\treturn true\n\t}\n\tu.sendMu.Lock()\n\tu.toSendMu.Unlock()\n", Expect: "withdrawal-always-written"},
+			{Name: "removal-key-before-the-export-policy", File: "routingtable/adjRIBOut/adj_rib_out.go", Old: "\tp, reject := a.exportFilterChain.Process(pfx, p)\n\tif reject {\n\t\treturn false\n\t}\n\n\treturn a.removeExportedPath(pfx, p)\n", New: "\t_, reject := a.exportFilterChain.Process(pfx, p)\n\tif reject {\n\t\treturn false\n\t}\n\n\treturn a.removeExportedPath(pfx, p)\n", Expect: "export-transformers-paired"},
 			{Name: "removal-drops-every-match", File: "route/route.go", Old: "\t\tif paths[j].Compare(remove) {\n\t\t\ti = j\n\t\t\tbreak\n\t\t}\n", New: "\t\tif paths[j].Compare(remove) {\n\t\t\ti = j\n\t\t}\n", Expect: "removal-takes-one-match"},
 			{Name: "clients-told-about-the-callers-path", File: "routingtable/adjRIBOut/adj_rib_out.go", Old: "\t\t\t\tsentPath = sp\n", New: "", Expect: "withdrawal-carries-released-identifier"},
 			{Name: "known-path-identifier-not-counted", File: "routingtable/adjRIBOut/path_id_manager.go", Old: "\t\tid := fm.idByPath[hash]\n\t\tfm.ids[id]++\n\t\treturn id, nil\n", New: "\t\tid := fm.idByPath[hash]\n\t\treturn id, nil\n", Expect: "refcount-follows-users"},
@@ -104,6 +105,7 @@ func methodLocksets(p *core.Prog, rel, typ string) (map[*core.Fn]*core.Locksets,
 }
 
 func runC10(c *core.Ctx) {
+	exportTransformerPairingOf(c, "export-policy")
 	removalTakesOneMatch(c, "removal-takes-one-match")
 	tableRemovalIsWithdrawn(c, "table-removal-is-withdrawn")
 	// the withdrawal is skipped on the "identifier not found" branch: identifiers must live as long as their users (shared with C11)
